@@ -59,6 +59,7 @@ type Term struct {
 	args []*Term
 	val  uint64
 	name string
+	ics  int // number of leaves if the term is an ite tree over constants (0 otherwise); bounds the rewrites below
 }
 
 func (t *Term) IsConst() bool { return t.op == OpConst }
@@ -102,6 +103,14 @@ func (tt *Terms) mk(op Op, w int, val uint64, name string, args ...*Term) *Term 
 		return t
 	}
 	t := &Term{id: len(tt.all), op: op, w: w, val: val, name: name, args: args}
+	if op == OpConst {
+		t.ics = 1
+	} else if op == OpIte && args[1].ics > 0 && args[2].ics > 0 {
+		t.ics = args[1].ics + args[2].ics
+		if t.ics > 1<<20 {
+			t.ics = 1 << 20
+		}
+	}
 	tt.all = append(tt.all, t)
 	tt.m[k] = t
 	if op == OpVar {
@@ -318,7 +327,7 @@ func (tt *Terms) eqIteConst(a, k *Term, depth int) *Term {
 	if a.IsConst() {
 		return tt.Bool(a.val == k.val)
 	}
-	if a.op == OpIte && depth < 64 && (a.args[1].IsConst() || a.args[1].op == OpIte) && (a.args[2].IsConst() || a.args[2].op == OpIte) {
+	if a.op == OpIte && a.ics > 0 && a.ics <= maxIteLeaves {
 		return tt.Ite(a.args[0], tt.eqIteConst(a.args[1], k, depth+1), tt.eqIteConst(a.args[2], k, depth+1))
 	}
 	x, y := a, k
@@ -468,14 +477,10 @@ func (tt *Terms) Bin(op Op, a, b *Term) *Term {
 	return tt.mk(op, rw, 0, "", a, b)
 }
 
+const maxIteLeaves = 24
+
 func isIteConstTree(t *Term, depth int) bool {
-	if t.IsConst() {
-		return true
-	}
-	if depth > 40 || t.op != OpIte {
-		return false
-	}
-	return isIteConstTree(t.args[1], depth+1) && isIteConstTree(t.args[2], depth+1)
+	return t.ics > 0 && t.ics <= maxIteLeaves
 }
 
 func (tt *Terms) mapIteConst(t *Term, f func(*Term) *Term) *Term {
